@@ -1,8 +1,10 @@
 (* C02 - Linearization preserves objective values and optima.  Statements, `exact`, Print Assumptions only.
-   STATUS: target statement visible; proved parts are *_partial. *)
+   STATUS: proved end to end for the affine fragment (C02_objective_affine, C02_optimum_affine: through the whole of
+   `compile` the linear objective equals the source objective at every assignment, so optimal points and values
+   coincide); for non-affine models the target statement is kept visible and the proved parts are *_partial. *)
 From Coq Require Import QArith Reals List String.
 From Rooc Require Import Base.XQ Model.Exp Model.Sem Model.Bounds Model.Linearize Model.Spec
-  Proof.PublishedCompile Proof.LinAffine Proof.ArmLemmas.
+  Proof.PublishedCompile Proof.LinAffine Proof.ArmLemmas Proof.CompileAffine.
 Import ListNotations.
 Local Close Scope Q_scope.
 Local Open Scope R_scope.
@@ -16,6 +18,27 @@ Definition C02_objective_statement : Prop :=
     forall rho v, sat_model m rho -> ev rho (m_obj m) = Some v ->
       (forall sigma, agree_on (map fst (m_domain m)) rho sigma -> sat_linear L sigma -> better_eq (m_dir m) v (lin_objective L sigma))
       /\ (exists sigma, agree_on (map fst (m_domain m)) rho sigma /\ sat_linear L sigma /\ lin_objective L sigma = v).
+
+(* ---- proved end to end on the affine fragment *)
+Theorem C02_objective_affine :
+  forall (m : model) (L : linmodel), affine_model m -> compile m = inr L ->
+    forall rho v, ev rho (m_obj m) = Some v -> lin_objective L rho = v.
+Proof. intros m L AM HC. exact (proj2 (compile_affine_equiv m L AM HC)). Qed.
+(* a source-optimal point is linear-optimal with the same value, and conversely *)
+Theorem C02_optimum_affine :
+  forall (m : model) (L : linmodel), affine_model m -> compile m = inr L ->
+    forall rho v, ev rho (m_obj m) = Some v ->
+      ((sat_model m rho /\ forall rho' v', sat_model m rho' -> ev rho' (m_obj m) = Some v' -> better_eq (m_dir m) v v')
+       <-> (sat_linear L rho /\ forall sigma, sat_linear L sigma -> better_eq (m_dir m) (lin_objective L rho) (lin_objective L sigma))).
+Proof.
+  intros m L AM HC rho v Ev. destruct (compile_affine_equiv m L AM HC) as [Eq Ob].
+  pose proof (am_plain_o m AM) as Po.
+  split.
+  - intros [S Best]. split; [apply Eq; exact S|]. intros sigma Ss. rewrite (Ob rho v Ev).
+    destruct (plain_total sigma _ Po) as [v' [_ Ev']]. rewrite (Ob sigma v' Ev'). apply (Best sigma v'); [apply Eq; exact Ss|exact Ev'].
+  - intros [S Best]. split; [apply Eq; exact S|]. intros rho' v' S' Ev'.
+    rewrite <- (Ob rho v Ev), <- (Ob rho' v' Ev'). apply Best. apply Eq. exact S'.
+Qed.
 
 (* ---- proved: for an affine objective the linear objective (coefficients and constant offset) equals the
    source objective at every real assignment, whatever the direction *)
@@ -35,5 +58,7 @@ Proof. exact max_onesided_relax. Qed.
 Theorem C02_min_onesided_partial : forall a b v, v <= a -> v <= b -> v <= Rmin a b.
 Proof. exact min_onesided_relax. Qed.
 
+Print Assumptions C02_objective_affine.
+Print Assumptions C02_optimum_affine.
 Print Assumptions C02_affine_objective_partial.
 Print Assumptions C02_abs_onesided_partial.
